@@ -197,8 +197,10 @@ def native_history(rnd, length):
         elif x < 0.28:
             nid += 1
             ops.append({"op": "AddUpdater", "c": "c1", "t": t, "text": _bs("SET ab = :v"), "id": "u%d" % nid, "attr": "mark", "val": S("u%d" % nid)})
-        elif x < 0.33:
+        elif x < 0.31:
             ops.append({"op": "NativeActivate", "c": "c1"})
+        elif x < 0.34:
+            ops.append({"op": "NativeSwap", "c": "c1"})      # SetInterpreter(another instance holding the same registrations)
         elif x < 0.55:
             d = put(t, item, cond=cond(ast[a]), values=vals[a]); d["condtext"] = _bs(text); ops.append(d)
         elif x < 0.70:
